@@ -79,6 +79,7 @@ def make_packages(ctx):
         ("new", {"n": 4, "getset": True, "json": True, "shared_embed": True, "deps_first": True, "opt": False, "generic": 0.0}),   # shared embedded shoot type
         ("enum", {"multifile": True}), ("enum", {"multifile": True, "empty": True}),                 # constants in another file than the type
         ("rest", {"headers": True, "dupcase": True}),                                                 # header names that differ only in case
+        ("maprich", {"tagshared": True, "n": 3}), ("maprich", {"tagshared": True, "n": 4}),           # a map tag on a field name the later types have untagged
     ]
     pks += detgen.hand_new_pkgs() + detgen.hand_map_pkgs(rng)
     for cmd, force in shaped:
